@@ -63,6 +63,29 @@ def check(rep, tier, seed):
     for c, a, e in zip(dcases, dimpl, dexp):
         if a != f"ok {e} 1":
             bad.append((C.codec_line(c), a, "a well-formed encoding in the unknown-length form does not decode to the value it denotes"))
+    # (3b) BigDecimal is not modelled, but its layout is stated by the format: the decimal text as a plain String
+    from . import c01 as C1
+    bcases, bwant = [], []
+    for _ in range(400 if tier == "quick" else 20000):
+        txt = C1.gen_bigdec(rng)
+        if rng.random() < 0.3:
+            txt = txt.rstrip("0") + "0" * rng.choice([1, 2, 5]) if "." in txt else txt + ".0"    # trailing zeros are data (the scale)
+        bcases.append(R.mk(None, G.P("bigdec"), "b" + txt.encode().hex(), "-", "enc"))
+        n = len(txt.encode())
+        zz, pre = n << 1, bytearray()
+        while True:
+            if zz < 128:
+                pre.append(zz)
+                break
+            pre.append((zz & 0x7f) | 0x80)
+            zz >>= 7
+        bwant.append((bytes(pre) + txt.encode()).hex())
+    bimpl = C._run_codec_side(harness, bcases, [C.codec_line(c) for c in bcases], wd, "bigdec", 8, 3000)
+    for c, a, w in zip(bcases, bimpl, bwant):
+        if not a.startswith("ok " + w + " "):
+            bad.append((C.codec_line(c), a[:120] + " (format: " + w + ")",
+                        "BigDecimal is not written as the String of its decimal text"))
+    rep.coverage["bigdecimal_layout_cases"] = len(bcases)
     # (4) the golden file written by Scala desert (desert_macro/golden/dataset1.bin): the declarations of
     # desert_macro/tests/golden.rs in the case language; the reference decoder and the implementation must read the
     # same value from it, and the reference ENCODER must reproduce the Scala bytes exactly from that value
